@@ -5,6 +5,8 @@ RFC 6690 reference as a set of links."""
 from .. import build, common, world
 from ..refs import linkformat as LF
 
+import re
+PRESENT = re.compile(rb"(?:^|,)</([^>]*)>")
 NAMES = [b"rt", b"if", b"rel", b"ct", b"sz", b"title", b"x"]
 WORDS = [b"temp", b"hum", b"sensor", b"core.s", b"a", b"ab", b"abc", b"t", b"te", b"light-lux"]
 
@@ -15,6 +17,9 @@ def gen_value(r, name):
         return None                              # value-less attribute
     if x < 0.2:
         return b""                               # empty value
+    if x < 0.23:
+        # a quote that is not one of a pair (judged for memory safety and listing text only)
+        return r.choice([b'"', b'"ab', b'ab"', b'""', b'"a b'])
     if name in (b"rt", b"if", b"rel") and x < 0.6:
         toks = [r.choice(WORDS) for _ in range(r.randint(1, 3))]
         return b'"' + b" ".join(toks) + b'"'
@@ -47,6 +52,11 @@ def gen_filter(r, table):
     x = r.random()
     if x < 0.2:
         return None
+    if x < 0.28:
+        # patterns that are empty once '/' and '*' are taken off
+        return r.choice([b"rt=*", b"if=*", b"rel=*", b"ct=*", b"title=*", b"zz=*", b"href=*",
+                         b"href=/*", b"href=/", b"href=", b"rt=", b"if=", b"title=", b"sz=*",
+                         b"x=*", b"x="])
     if x < 0.45 and table:
         res = r.choice(table)
         p = res.path
@@ -115,6 +125,7 @@ def work(job):
     cov = set()
     windows = 0
     judged_sets = 0
+    partial_sets = [0]
     sample = None
     for (table, f, mode), res, line in zip(cases, results, lines):
         if res is None:
@@ -144,6 +155,19 @@ def work(job):
                 vios.append(("print_wellknown/listing-differs/%s" % fk, {"case": line},
                              "filter %r\nexpected links (any order): %r\nlisting: %r" %
                              (f, [next(x.link_variants()) for x in expect], full)))
+        elif any(s_ is not None for s_ in sel):
+            # the statement settles some resources and leaves others open (empty pattern):
+            # the settled ones must be in / out, and what is listed must be whole links
+            present = set(PRESENT.findall(full))
+            bad = [(x.path, s_) for x, s_ in zip(table, sel)
+                   if s_ is not None and (x.path in present) != s_]
+            expect = [x for x in table if x.path in present]
+            ok, why = LF.match_listing(full, expect)
+            partial_sets[0] += 1
+            if bad or not ok:
+                vios.append(("print_wellknown/listing-differs/%s" % fk, {"case": line},
+                             "filter %r\nresources wrongly listed/left out (path, should be "
+                             "listed): %r\nlisting: %r" % (f, bad, full)))
         for item in fl[5:]:
             if not item.startswith("link:"):
                 continue
